@@ -181,13 +181,13 @@ def main():
     rc5, o5, e5, s5 = vf.sh([drv], input="TIMED 0.1\nPERIODIC 0.02\nEXACT\n" + ("" if quick else "W 5\n"), timeout=120)
     c.step("impl:timed-periodic-exact", drv, s5, rc5 == 0)
     got = {l.split()[0]: l.split()[1:] for l in o5.split("\n") if l.strip()}
-    expect = {"timed": ["0", "1", "1", "0", "1"], "periodic": ["0", "1", "1"], "exact": ["0", "0", "1", "0", "|", "0", "0"]}
+    expect = {"timed": ["0", "1", "1", "0", "1"], "periodic": ["0", "1", "0", "1", "1"], "exact": ["0", "0", "1", "0", "|", "0", "0"]}
     if not quick: expect["w"] = ["4294967290", "1", "1", "1"]
     for key, val in expect.items():
         if got.get(key) != val:
             npred += 1
             msg = {"timed": "timed condition: expected false before the duration, true after it and still true later (plain and periodic form)",
-                   "periodic": "periodically evaluated condition: false while the predicate was never true, true 3 periods after it became true, true after terminate()",
+                   "periodic": "periodically evaluated condition must follow its predicate within 3 periods in both directions (false, true, false again, true again) and be true after terminate()",
                    "exact": "exact-solution condition must mirror hasExactSolution(): none / approximate only / exact added / cleared",
                    "w": "iteration condition n=5 evaluated 2^32+1 times: must be true from the 6th evaluation on"}[key]
             if first_pred is None: first_pred = ([key.upper()], "%s; observed %s" % (msg, got.get(key)))
